@@ -24,21 +24,28 @@ def nextExpectedInPrologueX64 (b : List Nat) : Bool :=
     (b0 == 0x48 && b1 == 0x81 && b2 == 0xec) ||
     (b0 == 0x48 && b1 == 0x89 && b2 == 0xe5)
 
-/-- The backward scan over `slice_from_start`. `fuel` bounds the iterations (each consumes at
-least one byte). Returns `none` when the `u16` counter would overflow. -/
-def prologueScanX64 (s : List Nat) : Nat → Nat → Nat → Option RuleX64
+/-- The backward scan over `slice_from_start`, written over the *reversed* prefix (`rev` = the
+bytes before pc, nearest first; `cursor` of the Rust loop = `rev.length`). `fuel` bounds the
+iterations (each consumes at least one byte). Returns `none` when the `u16` counter would
+overflow. -/
+def prologueScanX64 : Nat → List Nat → Nat → Option RuleX64
   | 0, _, spBy8 => if spBy8 + 1 < U16 then some (.offsetSp (spBy8 + 1)) else none
-  | fuel + 1, cursor, spBy8 =>
-    if cursor ≥ 4 ∧ byteAt s (cursor - 4) = 0x55 ∧ byteAt s (cursor - 3) = 0x48 ∧
-        byteAt s (cursor - 2) = 0x89 ∧ byteAt s (cursor - 1) = 0xe5 then
+  | fuel + 1, rev, spBy8 =>
+    if rev.take 4 = [0xe5, 0x89, 0x48, 0x55] then
       some .useFramePointer
-    else if cursor ≥ 1 ∧ byteAt s (cursor - 1) &&& 0xf8 = 0x50 then
-      if spBy8 + 1 < U16 then
-        let cursor' := cursor - 1
-        let cursor'' := if cursor' ≥ 1 ∧ byteAt s (cursor' - 1) &&& 0xfe = 0x40 then cursor' - 1 else cursor'
-        prologueScanX64 s fuel cursor'' (spBy8 + 1)
-      else none
-    else if spBy8 + 1 < U16 then some (.offsetSp (spBy8 + 1)) else none
+    else
+      match rev with
+      | b :: rest =>
+        if b &&& 0xf8 = 0x50 then
+          if spBy8 + 1 < U16 then
+            match rest with
+            | p :: rest2 =>
+              if p &&& 0xfe = 0x40 then prologueScanX64 fuel rest2 (spBy8 + 1)
+              else prologueScanX64 fuel rest (spBy8 + 1)
+            | [] => prologueScanX64 fuel rest (spBy8 + 1)
+          else none
+        else if spBy8 + 1 < U16 then some (.offsetSp (spBy8 + 1)) else none
+      | [] => if spBy8 + 1 < U16 then some (.offsetSp (spBy8 + 1)) else none
 
 /-- `unwind_rule_from_detected_prologue`. Outer `none`: panic (`split_at` out of range). -/
 def anaPrologueX64 (text : List Nat) (pc : Nat) : Option (Option RuleX64) :=
@@ -47,7 +54,7 @@ def anaPrologueX64 (text : List Nat) (pc : Nat) : Option (Option RuleX64) :=
     let fromStart := text.take pc
     let toEnd := text.drop pc
     if !nextExpectedInPrologueX64 toEnd then some none
-    else some (prologueScanX64 fromStart (fromStart.length + 1) fromStart.length 0)
+    else some (prologueScanX64 (fromStart.length + 1) fromStart.reverse 0)
 
 /-- The forward scan of `unwind_rule_from_detected_epilogue`. `prevIsPop`: the byte before pc
 looks like a `pop`. -/
